@@ -1,1 +1,6 @@
 import GolibsVerif.Model.Kv
+import GolibsVerif.Lemmas.KvBasic
+import GolibsVerif.Lemmas.KvSim
+import GolibsVerif.Lemmas.KvInmem
+import GolibsVerif.Lemmas.KvRedis
+import GolibsVerif.Lemmas.KvVer
